@@ -1349,6 +1349,21 @@ def _replay_simple(torch, o3, S, key, rep):
             c = 1.0 if m.act._is_id else float(m.act.cst)
             x = torch.randn(2, m.grid_in.D.shape[-1], generator=torch.Generator().manual_seed(0))
             return float((m(x) - c * x).abs().max()), 1e-10
+        if key == "Legendre/orthonormality-on-the-grid" and "N" in rep:
+            N = int(rep["N"])
+            P = S.spherical_harmonics_s2_grid(LEG_LMAX, N, 3)[2]
+            w = S._quadrature_weights(N // 2) * N ** 2
+            worst = 0.0
+            for l in range(LEG_LMAX + 1):
+                for lp in range(l, LEG_LMAX + 1):
+                    for mm in range(-l, l + 1):
+                        v = float((w * P[:, l * l + l + mm] * P[:, lp * lp + lp + mm]).sum())
+                        worst = max(worst, abs(v - (1.0 / (4 * PI) if l == lp else 0.0)))
+            return worst, 2e-13
+        if key == "roundtrip/high-lmax" and rep.get("config"):
+            c = dict(rep["config"])
+            c["res"] = tuple(c["res"])
+            return check_roundtrip(torch, o3, c), 1e-12
         if key == "SO3Grid/roundtrip-bandlimited" and rep.get("config"):
             cfg = rep["config"]
             g = o3.SO3Grid(cfg["lmax"], cfg["resolution"], aspect_ratio=cfg["aspect"])
